@@ -323,6 +323,7 @@ def run(ctx: Ctx) -> int:
     ok = bool(st) and bool(pk) and g.dominates(g.cn(st), g.cn(pk))
     ctx.oblige("C09.e", ok, st[0] if st else pa, "parser.args is assigned before argparse can dispatch to its reader (class help)" if ok else "parser.args can be read by the class help action before this parse assigned it", fn=pa)
     gcp = ctx.func("_typehints:ActionTypeHint.get_class_parser")
+    ctx.expect_locals(gcp, ["parser", "kwargs"])
     ctor = [s for s in walk_local(gcp) if isinstance(s, ast.Assign) and root_name(s.targets[0]) == "parser" and isinstance(s.value, ast.Call) and ast.unparse(s.value.func) == "type(parser)"]
     rets = [r for r in walk_local(gcp) if isinstance(r, ast.Return)]
     cache = [s for s in walk_local(gcp) if isinstance(s, ast.Assign) and isinstance(s.targets[0], ast.Subscript) and root_name(s.targets[0].value) not in ("kwargs",)]
